@@ -190,6 +190,22 @@ def run_rt(spec, acc):
     t_end = time.time() + cfg['secs']
     case = 0
     tcx = [clk.TempoClock(t) for t in (1, 2.5)]     # tempo never changes
+    if cfg['slow']:
+        # ... and routines with slow steps on those TempoClocks (0.5-1.5 ms of work
+        # per step, every 20 ms; none when the clock is behind, so that no backlog
+        # builds up): for part of the time the library's current time thread is a
+        # routine of a TempoClock
+        from sc3.base.stream import Routine as _Routine
+
+        def slow_steps(clock, tempo):
+            def body():
+                while not slow_stop[0]:
+                    if clock.elapsed_beats() - clock.beats < 0.005 * tempo:
+                        time.sleep(jr.uniform(0.0005, 0.0015))
+                    yield 0.02 * tempo
+            _Routine(body).play(clock, 0)
+        slow_steps(tcx[0], 1)
+        slow_steps(tcx[1], 2.5)
     try:
         while time.time() < t_end:
             done_ev = threading.Event()
@@ -245,6 +261,14 @@ def run_rt(spec, acc):
                 acc.count('rt_thread_sched_probes_checked')
                 lo, hi, unit = p['lo'], p['hi'], p['unit']
                 t0 = p['obs'][0]
+                if p['how'].startswith('Routine'):
+                    acc.count('rt_default_clock_plays_checked')
+                    if p.get('ran_on') != 'SystemClock':
+                        acc.violation(
+                            f"C05/played-without-clock-from-thread-runs-on-{p.get('ran_on')}/rt",
+                            {'probe': {k: v for k, v in p.items() if k != 'obs'},
+                             'observed': p['obs'][:4]})
+                        continue
                 if not (lo - 1e-6 <= t0 <= hi + 1e-6):
                     acc.violation(
                         f"C05/start-time-not-call-time-plus-delta/{p['how']}-from-thread/rt",
@@ -325,15 +349,19 @@ def thread_sched_probes(clk, main, rng, tcx):
     out = []
     for _ in range(rng.randint(1, 3)):
         how = rng.choice(['SystemClock.sched', 'SystemClock.sched_abs',
-                          'TempoClock.sched', 'TempoClock.sched_abs'])
+                          'TempoClock.sched', 'TempoClock.sched_abs',
+                          'Routine.play-default-clock', 'Routine.run-default-clock'])
         d = rng.choice([0, 0.001, 0.004, 0.02])
         deltas = [rng.choice([0, 0.001, 0.003, 0.01]) for _ in range(rng.randint(1, 4))]
-        clock = clk.SystemClock if how.startswith('System') else rng.choice(tcx)
+        clock = clk.SystemClock if how.startswith(('System', 'Routine')) else rng.choice(tcx)
         p = {'how': how, 'delta': d, 'deltas': deltas, 'obs': [],
              'unit': 'secs' if clock is clk.SystemClock else 'beats'}
 
         def body(p=None, clock=clock, deltas=deltas, rec=p):
             sec = clock is clk.SystemClock
+            if isinstance(p, tuple) and len(p) == 2:
+                rec['ran_on'] = ('SystemClock' if p[1] is clk.SystemClock else
+                                 'AppClock' if p[1] is clk.AppClock else type(p[1]).__name__)
             rec['obs'].append(clock.seconds if sec else clock.beats)
             for x in deltas:
                 yield x
@@ -345,7 +373,17 @@ def thread_sched_probes(clk, main, rng, tcx):
             for _ in range(rng.randint(1, 2)):
                 clock.sched(rng.choice([0.0005, 0.002, 0.0035, 0.011]), Function(_boom))
                 _BOOMS[0] += 1
-        if clock is clk.SystemClock:
+        if how.startswith('Routine'):
+            # no clock given, called from this plain thread: the default clock
+            # (SystemClock), starting now - whatever the clock threads are running
+            p['delta'] = d = 0
+            c0 = main.elapsed_time()
+            if how == 'Routine.play-default-clock':
+                r.play()
+            else:
+                r = Routine.run(body)
+            p['lo'], p['hi'] = c0, main.elapsed_time()
+        elif clock is clk.SystemClock:
             c0 = main.elapsed_time()
             if how.endswith('abs'):
                 clock.sched_abs(c0 + d, r)
